@@ -1,0 +1,26 @@
+//go:build verif
+
+package modifier
+
+import (
+	"github.com/simimpact/srsim/pkg/engine/info"
+	"github.com/simimpact/srsim/pkg/key"
+)
+
+// VerifInstance is one attached modifier instance as seen by the verification harness.
+type VerifInstance struct {
+	Inst   *Instance
+	Model  info.Modifier
+	Renew  int
+	CanP2  bool
+	Status int
+}
+
+// VerifInstances returns the instances attached to target in attachment order (verification only).
+func (mgr *Manager) VerifInstances(target key.TargetID) []VerifInstance {
+	out := make([]VerifInstance, 0, len(mgr.targets[target]))
+	for _, m := range mgr.targets[target] {
+		out = append(out, VerifInstance{Inst: m, Model: m.ToModel(), Renew: m.renewTurn, CanP2: m.canTickImmediatelyPhase2, Status: int(m.statusType)})
+	}
+	return out
+}
